@@ -112,6 +112,18 @@ def afterFilter (rc : RCtx) (o : List Out) : List Out :=
 def buildReply (rc : RCtx) (hdr : List Entry) : List Out :=
   afterFilter rc ((replyFilter rc hdr).map toOut)
 
+def upgradeBytes : Bytes := [117, 112, 103, 114, 97, 100, 101]
+
+/-- `Http::One::Server::writeControlMsgAndCall(rep, call)` (src/servers/Http1Server.cc): what a 1xx control message from the
+origin looks like when it is passed to the client. `switching`: the status is 101. No Proxy-Authenticate deletion here. -/
+def buildControlMsg (switching : Bool) (hdr : List Entry) : List Out :=
+  let upgradeHeader := getList hdr Id.UPGRADE
+  -- removeHopByHopEntries(); removeIrrelevantContentLength() (1xx prohibits Content-Length)
+  let kept := delById (removeHopByHopEntries (slotsOf hdr)) Id.CONTENT_LENGTH
+  kept.map toOut ++
+    (if switching && upgradeHeader.length > 0 then [own Id.UPGRADE (some upgradeHeader), own Id.CONNECTION (some upgradeBytes)]
+     else [own Id.CONNECTION (some keepAliveBytes)])
+
 /-- `httpHeaderHasConnDir(&header, directive)` (USE_HTTP_VIOLATIONS build: Proxy-Connection counts when Connection is absent) -/
 def hasConnDir (hdr : List Entry) (directive : Bytes) : Bool :=
   if has hdr Id.CONNECTION then isMember (getList hdr Id.CONNECTION) directive
